@@ -50,7 +50,13 @@ func (r *Renderer) query(q *Query, outer []scope) string {
 		r.tail(&sb, q)
 		return sb.String()
 	}
+	// the FROM clause is rendered first (its column names are needed by everything else) but comes
+	// AFTER the select list in the text: its parameters are spliced in at their textual position
+	saved := r.ParamVals
+	r.ParamVals = nil
 	fromSQL, sc := r.from(q.From, outer)
+	fromParams := r.ParamVals
+	r.ParamVals = saved
 	scopes := append([]scope{sc}, outer...)
 	sb.WriteString("SELECT ")
 	if q.Hint != "" {
@@ -65,6 +71,7 @@ func (r *Renderer) query(q *Query, outer []scope) string {
 		}
 		sb.WriteString(fmt.Sprintf("%s AS x%d", r.expr(p, scopes), i+1))
 	}
+	r.ParamVals = append(r.ParamVals, fromParams...)
 	if fromSQL != "" {
 		sb.WriteString(" FROM " + fromSQL)
 	}
